@@ -47,6 +47,10 @@ func (p probe) Format(st fmt.State, verb rune) {
 	*p.rec = append(*p.rec, s)
 }
 
+type ptrFmtr struct{ s string }
+
+func (p *ptrFmtr) Format(st fmt.State, verb rune) { fmt.Fprintf(st, "PF<%s|%c>", p.s, verb) }
+
 func streamForward(rep *Report, tier string, seed uint64) {
 	RunStream(rep, "F-makeformat", true, "32 flag subsets x widths {absent,0,1,7,12,1000,*} x precisions {absent,0,1,5,*} x 52 ASCII letters + 9 other ASCII characters + 3 multi-byte verbs, under fmt's and redact's fmt.State; round-trip through MakeFormat; Safe(x)/Unsafe(x) vs x under fmt for 12 basic kinds", true, 1,
 		func(sh, ns int, emit func(Case)) {
@@ -63,7 +67,10 @@ func streamForward(rep *Report, tier string, seed uint64) {
 			verbs = append(verbs, "!", "_", "~", "@", "?", "]", "$", "}", "&")
 			widths := []string{"", "0", "1", "7", "12", "1000", "*", "*0", "*-"}
 			precs := []string{"", ".0", ".1", ".5", ".*"}
-			operands := []interface{}{true, 42, -7, uint8(200), 3.25, complex(1, -2), "str", []byte("by"), []byte{}, []byte(nil), 'x', errors.New("e"), strg{"s"}, nil, []int{1, 2}, map[string]int{"a": 1}, struct{ A int }{3}, &intCell, [2]byte{1, 2}, MyStr("ms")}
+			operands := []interface{}{true, 42, -7, uint8(200), 3.25, complex(1, -2), "str", []byte("by"), []byte{}, []byte(nil), 'x', errors.New("e"), strg{"s"}, nil, []int{1, 2}, map[string]int{"a": 1}, struct{ A int }{3}, &intCell, [2]byte{1, 2}, MyStr("ms"),
+				// operands with methods of their own, live and as typed nil pointers (fmt prints <nil> for a nil receiver whose
+				// method panics — only if the operand it dispatched on is that nil pointer)
+				errFmtr{"ef"}, &ptrFmtr{"pf"}, (*ptrFmtr)(nil), (*pstrg)(nil), &pstrg{"ps"}}
 			for m := 0; m < 32; m++ {
 				fl := ""
 				for i, f := range "+-# 0" {
